@@ -195,6 +195,63 @@ func c07Case(out *verifh.Out, w *c07World, rnd *verifh.Rand, nops int) {
 			out.CoverN("batch.concurrent.opens", int64(n))
 			r.batch(qs, modes, rnd)
 			know = r.lastKnow
+		case c < 94 && w.kind == 2:
+			// limited vs direct x concurrent opens: opens parked until a direct connection exists
+			if w.parkSick >= 3 {
+				out.Cover("park.skipped_after_opens_not_woken")
+				break
+			}
+			if len(tab) == 0 || rnd.Chance(1, 4) {
+				// scripted prelude: something is served under its own name, without a scope limit
+				p := int64(rnd.Intn(c07U))
+				for w.hasLimit(p) {
+					p = int64(rnd.Intn(c07U))
+				}
+				oldNames = append(oldNames, names())
+				r.addHandler(&tab, p, nil, nil)
+			}
+			// protocols an open can be expected to get: served, no scope limit in the way
+			var clean, unknown []int64
+			for p := int64(0); p < c07U; p++ {
+				if w.hasLimit(p) {
+					continue
+				}
+				if c07FirstMatch(tab, p) != nil {
+					clean = append(clean, p)
+				} else if !c07Has(names(), p) {
+					unknown = append(unknown, p) // neither served nor advertised
+				}
+			}
+			n := 1 + rnd.Intn(4)
+			var qs [][]int64
+			var modes []int64
+			for j := 0; j < n; j++ {
+				q := c07RandReqs(rnd, w, tab, true)
+				if len(clean) > 0 && rnd.Chance(4, 5) {
+					q = nil
+					for k := 1 + rnd.Intn(2); k > 0; k-- {
+						q = append(q, clean[rnd.Intn(len(clean))])
+					}
+					if len(unknown) > 0 && rnd.Chance(1, 3) {
+						// the listener turns this proposal down first
+						q = append([]int64{unknown[rnd.Intn(len(unknown))]}, q...)
+					}
+					out.Cover("park.open_with_served_protocol")
+				}
+				m := int64(rnd.Intn(4)) << 2 // Write/Read orders, SetDeadline first
+				if rnd.Chance(1, 3) {
+					m |= c07ModeExpires
+				}
+				qs = append(qs, q)
+				modes = append(modes, m)
+			}
+			if n >= 2 && rnd.Chance(1, 2) {
+				// the open parked first gives up, the one parked last does not
+				modes[0] |= c07ModeExpires
+				modes[n-1] &^= c07ModeExpires
+			}
+			r.park(qs, modes, rnd)
+			know = r.lastKnow
 		case c < 94 && w.kind != 2 && !w.blankL && !w.blankD:
 			// (the relay world would need a new reservation; a BlankHost listener does not answer identify)
 			if rnd.Chance(1, 2) && len(tab) > 0 {
@@ -381,6 +438,25 @@ func TestVerifC07Replay(t *testing.T) {
 			i += 1 + 2*int(in[i])
 			skipList()
 			i += 2 * c07U
+		case 9:
+			n := int(in[i+1])
+			i += 2
+			var qs [][]int64
+			var modes []int64
+			for j := 0; j < n && ok(2); j++ {
+				modes = append(modes, in[i])
+				m := int(in[i+1])
+				qs = append(qs, append([]int64{}, in[i+2:i+2+m]...))
+				i += 2 + m
+			}
+			r.park(qs, modes, rnd)
+			skipList()
+			i += 8 * n
+			i += 1 + 2*int(in[i])
+			skipList()
+			i += 2 * c07U
+			// (the recorded closes of the streams the op obtained follow as ops 6; park has
+			// closed them already, closing an absent slot changes nothing)
 		case 6:
 			r.closeSlot(in[i+1], in[i+2])
 			i += 3 + 2*c07U
